@@ -69,7 +69,7 @@ class SchedLock:
 
 
 class Sched:
-    def __init__(self, nthreads, plan, start, code_file):
+    def __init__(self, nthreads, plan, start, code_file, extra_files=()):
         self.n = nthreads
         self.sems = [threading.Semaphore(0) for _ in range(nthreads)]
         self.main_sem = threading.Semaphore(0)
@@ -81,6 +81,7 @@ class Sched:
             self.plan.setdefault((tid, k), to)
         self.start = start
         self.code_file = code_file
+        self.code_files = frozenset((code_file,) + tuple(extra_files))
         self.order = []                         # (tid, opidx) per outermost acquisition
         self.opidx = [0] * nthreads
         self.aborting = False
@@ -161,7 +162,7 @@ class Sched:
 
     # -- thread body ------------------------------------------------------------
     def make_tracer(self, me):
-        code_file = self.code_file
+        code_files = self.code_files
         on_opcode = self.on_opcode
 
         def local(frame, event, arg):
@@ -170,7 +171,7 @@ class Sched:
             return local
 
         def tracer(frame, event, arg):
-            if frame.f_code.co_filename == code_file:
+            if frame.f_code.co_filename in code_files:
                 frame.f_trace_opcodes = True
                 frame.f_trace_lines = False
                 return local
